@@ -45,6 +45,10 @@ def jobs(tier, prop="ASSERT_C02"):
                         extra=["TL_SHAPE=%d" % shape, "TL_NRECS=%s" % nrecs],
                         what="harness_remove on an IPv4 trie of fixed shape %s (one record per node, all field values symbolic) + "
                              "arbitrary 0/1-node trie of the other family" % nm))
+    # a single node with exactly three records: the only shape in which deleting a record that is not among the last two
+    # makes pfx_table_del_elem shift more than one element (seed S-C01-3 copies one element instead of shifting the tail)
+    J.append(op_job("remove_v4_node3", "harness_remove", 0, 3, 4, 1500, prop=prop, extra=["TL_SHAPE=1", "TL_NRECS=3"],
+                    what="harness_remove on a single-node IPv4 trie with exactly 3 records (all values symbolic)"))
     J.append(op_job("foreach_v4_d1", "harness_for_each", 1, 2, 4, 900, prop=prop))
     for nm, shape, nrecs, te in (("empty", 0, "1", 1), ("n1", 1, "1", 1), ("n2", 1, "2", 2)):
         J.append(op_job("srcremove_v4_d0_%s" % nm, "harness_src_remove", 0, te, 4, 1200, prop=prop,
